@@ -1,3 +1,4 @@
+import json
 import numbers
 
 import numpy as np
@@ -5,6 +6,9 @@ import numpy as np
 
 def f1dfloatduple(value):
     """Tuple of two floats (duple)"""
+    if isinstance(value, str):
+        # string representation (e.g. from a text file): "(1.5, 2.0)"
+        value = [v for v in value.strip("()[] ").split(",") if v.strip()]
     if np.array(value).ndim != 1:
         raise ValueError(f"Value is not 1 dimensional, got {value}!")
     value = tuple(float(i) for i in value)
@@ -16,6 +20,9 @@ def f1dfloatduple(value):
 
 def f2dfloatarray(value):
     """numpy floating point array"""
+    if isinstance(value, str):
+        # string representation (e.g. from a text file): "[[1, 2], [3, 4]]"
+        value = json.loads(value)
     return np.array(value, dtype=np.float64)
 
 
